@@ -172,6 +172,25 @@ def run(ck: Check) -> int:
             _run_pairs(ck, f'non-LF-boundaries-{i}', alpha, 4 if thorough else 3, (0, 1, 3), 'm.ml', pool)
         # a file name with a space and 5 context lines (more context than lines)
         _run_pairs(ck, 'ctx>lines', ('a', 'b'), 3, (4, 7), 'dir name/m.ml', pool)
+        # long texts: hunk headers with 2- and 3-digit line numbers and lengths ending in 0 (both directions: a -> b and b -> a)
+        rows = E.long_rows()
+        jobs = [(a, bs, (0, 1, 3, 5), 'm.ml', 2) for a, bs in rows] + [(b, [a], (0, 3), 'm.ml', 2) for a, bs in rows for b in bs[::3]]
+        tot = 0
+        rep = {}
+        for n, classes, fails, per in pool.imap(E.eval_row, jobs, chunksize=8):
+            tot += n
+            for x in fails:
+                oid = x['clause']
+                rep[oid] = rep.get(oid, 0) + 1
+                if rep[oid] > 4:
+                    continue
+                la, lb = x['a'].count('\n'), x['b'].count('\n')
+                ck.violation(oid, f"[long texts] a = {la} lines, b = {lb} lines, context_size={x['context_size']}: {x['info'][:300]}; patch={x['patch'][:200] if x['patch'] else None!r}",
+                             case=dict(kind='text', clause=oid, a=x['a'], b=x['b'], context_size=x['context_size'], filename=x['filename']),
+                             replay=REPLAY, wclass=f"long n={x['context_size']} lines={la}->{lb}")
+        ck.evaluate('long texts: hunks at 2- and 3-digit line numbers, lengths ending in 0', n=tot)
+        ck.bound('texts[long]', f'{len(rows)} base texts of {list(E.LONG_LENGTHS)} distinct lines (with/without final newline) x one or two edits (insert/delete/replace '
+                                f'1 or 10 lines) at positions {list(E.LONG_POSITIONS)}, context sizes 0,1,3,5, both directions')
     finally:
         pool.close()
         pool.join()
